@@ -46,10 +46,12 @@ def main():
         # demo files
         demos = []
         dp = os.path.join(src, "DEMO_PATH.txt")
-        paths = re.findall(r'[\w./-]+_test\.go', open(dp).read()) if os.path.exists(dp) else []
+        dptext = open(dp).read() if os.path.exists(dp) else ""
+        arrows = {os.path.basename(a.strip()): b.strip() for a, b in re.findall(r'([\w./-]+_test\.go)\s*->\s*([\w./-]+_test\.go)', dptext)}
+        paths = re.findall(r'[\w./-]+_test\.go', dptext)
         for f in glob.glob(os.path.join(src, "*_test.go")):
             base = os.path.basename(f)
-            dest = next((p for p in paths if os.path.basename(p) == base), None)
+            dest = arrows.get(base) or next((p for p in paths if os.path.basename(p) == base), None)
             if dest is None and len(paths) == 1: dest = paths[0]
             if dest is None: dest = "x/cctp/keeper/" + base
             dest = re.sub(r'^/tmp/seed-C\d+/', '', dest)
@@ -61,11 +63,16 @@ def main():
             shutil.copy(f, os.path.join(wt, dest))
             pkgs.add("./" + os.path.dirname(dest))
         pk = " ".join(sorted(pkgs))
-        rc1, out1 = sh(f"go test -vet=off -count=1 -run 'Seed' {pk}", cwd=wt)
+        names = []
+        for f, _ in demos:
+            names += re.findall(r'^func (Test\w+)\(', open(f).read(), re.M)
+        runre = "^(" + "|".join(sorted(set(names))) + ")$"
+        meta["demo_tests"] = sorted(set(names))
+        rc1, out1 = sh(f"go test -vet=off -count=1 -run '{runre}' {pk}", cwd=wt)
         meta["demo_with_patch"] = "FAIL" if rc1 != 0 else "PASS"
         rc, out = sh(f"git apply -R --whitespace=nowarn {patch}", cwd=wt)
         assert rc == 0, out
-        rc2, out2 = sh(f"go test -vet=off -count=1 -run 'Seed' {pk}", cwd=wt)
+        rc2, out2 = sh(f"go test -vet=off -count=1 -run '{runre}' {pk}", cwd=wt)
         meta["demo_without_patch"] = "PASS" if rc2 == 0 else "FAIL"
         if "no tests to run" in out2 and "ok" not in out2.replace("no tests to run", ""):
             meta["demo_without_patch"] = "NO-TESTS"
